@@ -28,6 +28,7 @@ ratio_approx_fbe_quadratic_model with Lγ_factor ≥ 1.
 import math
 import os
 import sys
+import zlib
 from fractions import Fraction as Fr
 
 sys.path.insert(0, os.path.dirname(os.path.abspath(__file__)))
@@ -55,6 +56,15 @@ CORPUS = [
     'y0=2:bff4000000000000,c000000000000000 Sig=2:3fe0000000000000,3fd0000000000000 maxiter=20 '
     'tol=3fb999999999999a crit=7 maxnp=10 overwrite=0 updcand=0 recomp=1 eager=1 force=0 mem=5 advseed=29 '
     'L0=3f90000000000000 stopat=0 stopcb=0 nanat=0 oot=0 wmscratch=0',
+    # one ψ evaluation returns NaN: the quadratic-upper-bound test passes on it (known finding
+    # C05-nan-cost-passes-acceptance-tests)
+    'run solver=panoc dir=adv n=3 m=1 Q=9:c01e000000000000,3ffa000000000000,bfe0000000000000,3ffa000000000000,4008000000000000,bfec000000000000,bfe0000000000000,bfec000000000000,c018000000000000 c=3:bfe8000000000000,c008000000000000,401f000000000000 q4=3:4000000000000000,0000000000000000,4000000000000000 A=3:0000000000000000,bff0000000000000,3ff0000000000000 b=1:0000000000000000 Clb=3:c008000000000000,c010000000000000,bff4000000000000 Cub=3:7ff0000000000000,4010000000000000,7ff0000000000000 Dlb=1:c008000000000000 Dub=1:bffc000000000000 l1=0: x0=3:0000000000000000,c002000000000000,bff4000000000000 y0=1:4000000000000000 Sig=1:3fd0000000000000 maxiter=3 tol=3fb999999999999a crit=0 maxnp=1 overwrite=1 updcand=1 recomp=0 eager=1 force=1 mem=5 advseed=184 L0=3f70000000000000 stopat=0 stopcb=0 nanat=10 oot=0 wmscratch=1 advinit=0 qubtol=3f847ae147ae147b lstol=3ddb7cdfd9d7bdbb',
+]
+
+# ZeroFPR, recomp=1: callback 1 reports the new γ with x̂, p of the old one (known finding
+# C05-zerofpr-recompute-reports-mixed-stepsize)
+ZEROFPR_CORPUS = [
+    'run solver=zerofpr dir=adv n=1 m=0 Q=1:3ff8000000000000 c=1:401e000000000000 q4=1:3ff0000000000000 A=0: b=0: Clb=1:fff0000000000000 Cub=1:3ff0000000000000 Dlb=0: Dub=0: l1=1:3ff0000000000000 x0=1:bfe8000000000000 y0=0: Sig=0: maxiter=60 tol=3e45798ee2308c3a crit=4 maxnp=2 overwrite=1 updcand=1 recomp=1 updprox=0 force=0 minls=3eb0000000000000 beta=3fe0000000000000 lstol=0000000000000000 qubtol=0000000000000000 Lmax=4415af1d78b58c40 Lgf=3ff0000000000000 mem=5 advseed=674 advinit=0 hvf=0000000000000000 L0=3fc0000000000000 stopat=0 stopcb=0 nanat=0 oot=0 wmscratch=0',
 ]
 
 # the two rounding margins are independent parameters: drawn independently (a coarse class included so
@@ -149,7 +159,32 @@ def init_interrupted(r, cbs, k, flavor):
         return False
     if flavor in ('panoc', 'zerofpr'):
         return t0 <= LP.init_ticks(r)
-    return True          # PANOC-OCP: one callback, zero iterations, a stop request landed
+    # PANOC-OCP: the loop head makes no problem call, so with a single (final) callback the initialisation is
+    # everything before it: the request was visible when the initialisation ended iff it landed before that
+    # callback (`InitInterrupted` of Props/C05_Ocp: stop at the tick the initialisation ended)
+    return t0 <= r.get('ticks', 0) - 1
+
+
+KEY_NAN = 'C05-nan-cost-passes-acceptance-tests'
+
+
+def nonfinite_cause(op, cb):
+    """Why a callback carries a non-finite ψ / ψ̂ / φγ / p / ∇ψ: `nan_injected` (the harness made one ψ evaluation
+    return NaN), `overflow_range` (iterate beyond 1e60: the quartic / its gradient overflow binary64), `other`."""
+    if op.nat('nanat', 0) != 0 and any(v != v for v in (cb['psi'], cb['psi_hat'], cb['fbe'])):
+        return 'nan_injected'
+    pts = cb['x'] + cb['xhat']
+    if any(not math.isfinite(a) or abs(a) > 1e60 for a in pts):
+        return 'overflow_range'
+    return 'other'
+
+
+def nan_fact(op, cbs, k, what):
+    """A fact about the code, reported under its finding: the acceptance tests are written `a > b`, so a NaN cost
+    passes them (an +inf cost does not)."""
+    cb = cbs[k]
+    return (f'callback {k} ({cb["status"]}): ψ(x̂) = NaN (the problem returned NaN for that evaluation) {what}: '
+            f'`qub_violated` / `linesearch_violated` compare with `>`, which is false for NaN', KEY_NAN)
 
 
 def qub_holds(cb, qubtol):
@@ -199,9 +234,11 @@ def gamma_checks(cbs, P, tag=''):
     return None
 
 
-def fb_step_descent(a, b, P, what):
+def fb_step_descent(a, b, P, what, psi_noise=None):
     """Plain forward-backward step a → b (b.x = a.x̂): φ_b ≤ φ_a − (1−γL)/(2γ)‖p‖² + (1+|ψ_a|)·qub_tol in exact
-    rationals with a slack of 64 ε of the operands.  → message or None."""
+    rationals with a slack of 64 ε of the operands.  `psi_noise`: bound on |ψ_b − ψ̂_a| where the solver evaluates
+    ψ(x̂_a) twice with different routines (PANTR: eval_ψ, then eval_ψ_grad_ψ); None: ψ_b is a copy (bit-equal).
+    → message or None."""
     c = (1 - Fr(a['gamma']) * Fr(a['L'])) / (2 * Fr(a['gamma']))
     pTp = sum(x * x for x in S.frv(a['p']))
     margin = (1 + abs(Fr(a['psi']))) * Fr(P['qubtol'])
@@ -211,9 +248,17 @@ def fb_step_descent(a, b, P, what):
     mag = max(1, abs(Fr(a['fbe'])), abs(Fr(b['fbe'])), abs(Fr(a['psi'])), abs(Fr(a['psi_hat'])),
               abs(Fr(b['psi'])), pTp / (2 * Fr(a['gamma'])),
               Fr(b['pTp']) / (2 * Fr(b['gamma'])), gp_a, gp_b)
-    # ψ(x̂_k) may be evaluated twice by different routines (eval_ψ, eval_ψ_grad_ψ): their difference is
-    # evaluation noise of the problem oracle, not of the solver
-    slack = 64 * Fr(EPS) * mag + abs(Fr(b['psi']) - Fr(a['psi_hat']))
+    dpsi = abs(Fr(b['psi']) - Fr(a['psi_hat']))
+    if psi_noise is None:
+        if LM.bits(b['x']) != LM.bits(a['xhat']):
+            return f'{what} k={a["k"]} (τ = 0): iterate {a["k"]+1} is not the x̂ of iterate {a["k"]}'
+        if dpsi != 0:
+            return (f'{what} k={a["k"]} (τ = 0): ψ of iterate {a["k"]+1} = {b["psi"]!r} is not the ψ(x̂) = '
+                    f'{a["psi_hat"]!r} reported for iterate {a["k"]}')
+    elif dpsi > psi_noise:
+        return (f'{what} k={a["k"]}: ψ(x̂_k) = {a["psi_hat"]!r} and ψ(x_{a["k"]+1}) = {b["psi"]!r} at the same point '
+                f'differ by more than the evaluation noise 2⁻⁴⁰·M = {float(psi_noise):.3g}')
+    slack = 64 * Fr(EPS) * mag + dpsi        # dpsi = 0, or ≤ the evaluation noise of the problem oracle
     if Fr(b['fbe']) > rhs + slack:
         return (f'{what} k={a["k"]}: φ_{a["k"]+1}={b["fbe"]!r} > φ_k − (1−γL)/(2γ)‖p‖² + margin '
                 f'= {float(rhs)!r} (slack {float(slack):.3g}), γ_k={a["gamma"]!r}, γ_{a["k"]+1}={b["gamma"]!r}')
@@ -251,10 +296,18 @@ def monitor(op_line, out_line, st, flavor='panoc'):
     if m:
         return m
     # ---- quadratic upper bound at every reported iterate ---------------------------------------
+    nanf = None
     for k, cb in enumerate(cbs):
         vals = [cb['psi'], cb['psi_hat'], cb['L'], cb['pTp']] + cb['p'] + cb['grad_psi']
         if not LP.finite(*vals):
-            bump('qub_skipped_nonfinite')
+            cause = nonfinite_cause(op, cb)
+            bump('qub_skipped_' + cause)
+            if cause == 'other':
+                return (f'callback {k}: non-finite fields (ψ={cb["psi"]!r}, ψ̂={cb["psi_hat"]!r}, ‖p‖²={cb["pTp"]!r}) '
+                        f'at a moderate iterate without NaN injection')
+            if cause == 'nan_injected' and cb['psi_hat'] != cb['psi_hat'] and cb['status'] == 'Busy':
+                bump('fact_nan_psihat_iterate_accepted')
+                nanf = nanf or nan_fact(op, cbs, k, 'and the iterate was accepted, the solve went on from it')
             continue
         if Fr(cb['pTp']) != 0 and abs(Fr(cb['pTp']) - sum(a * a for a in S.frv(cb['p']))) > \
                 8 * Fr(EPS) * Fr(cb['pTp']):
@@ -299,7 +352,11 @@ def monitor(op_line, out_line, st, flavor='panoc'):
             continue
         vals = [a['fbe'], b['fbe'], a['gamma'], a['L'], a['pTp'], a['psi'], a['psi_hat'], b['psi']]
         if not LP.finite(*vals):
-            bump('descent_skipped_nonfinite')
+            cause = nonfinite_cause(op, a) if not LP.finite(a['fbe'], a['psi'], a['psi_hat'], a['pTp']) \
+                else nonfinite_cause(op, b)
+            bump('descent_skipped_' + cause)
+            if cause == 'other':
+                return f'callbacks {k}, {k+1}: non-finite φ / ψ at moderate iterates without NaN injection'
             continue
         if tau > 0:
             if P['force']:
@@ -327,7 +384,7 @@ def monitor(op_line, out_line, st, flavor='panoc'):
             if m:
                 return m
             bump('descent_safeguarded')
-    return None
+    return nanf
 
 
 # ------------------------------------------------------------------ PANTR
@@ -412,11 +469,19 @@ def monitor_pantr(op_line, out_line, st):
     if m:
         return m
     segs = LM.cb_segments(r['events'])
+    nanf = None
     for k, cb in enumerate(cbs):
         # ---- quadratic upper bound at every reported iterate -----------------------------------
         vals = [cb['psi'], cb['psi_hat'], cb['L'], cb['pTp']] + cb['p'] + cb['grad_psi']
         if not LP.finite(*vals):
-            bump('qub_skipped_nonfinite')
+            cause = nonfinite_cause(op, cb)
+            bump('qub_skipped_' + cause)
+            if cause == 'other':
+                return (f'callback {k}: non-finite fields (ψ={cb["psi"]!r}, ψ̂={cb["psi_hat"]!r}, ‖p‖²={cb["pTp"]!r}) '
+                        f'at a moderate iterate without NaN injection')
+            if cause == 'nan_injected' and cb['psi_hat'] != cb['psi_hat'] and cb['status'] == 'Busy':
+                bump('fact_nan_psihat_iterate_accepted')
+                nanf = nanf or nan_fact(op, cbs, k, 'and the iterate was accepted, the solve went on from it')
         else:
             if Fr(cb['pTp']) != 0 and abs(Fr(cb['pTp']) - sum(a * a for a in S.frv(cb['p']))) > \
                     8 * Fr(EPS) * Fr(cb['pTp']):
@@ -426,9 +491,11 @@ def monitor_pantr(op_line, out_line, st):
                 bump('qub_holds')
             elif cb['L'] >= P['Lmax']:
                 bump('qub_violated_but_L_at_Lmax')
-            elif k == len(cbs) - 1 and LP.stoptick(r) is not None:
-                # PANTR's step-size loops poll the stop flag: the final callback of a solve with a visible stop request may
-                # report an iterate whose backtracking was cut short (Props/C05_Pantr.pantr_reported_qub)
+            elif k == len(cbs) - 1 and cb['status'] != 'Busy' and LP.stoptick(r) is not None and \
+                    LP.stoptick(r) <= r.get('ticks', 0) - 1:
+                # PANTR's step-size loops poll the stop flag: the iterate of the *final* callback when the request was
+                # visible at the final loop-head check (tick T − 1; the callback itself is tick T) may have had its
+                # backtracking cut short — third disjunct of Props/C05_Pantr.pantr_reported_qub
                 bump('qub_excluded_backtracking_interrupted')
             else:
                 return (f'callback {k}: ψ(x̂)={lhs!r} > ψ+∇ψᵀp+½L‖p‖²+margin={rhs!r} (slack {slack:.3g}) '
@@ -477,13 +544,17 @@ def monitor_pantr(op_line, out_line, st):
         vals = [a['fbe'], b['fbe'], a['gamma'], a['L'], a['pTp'], a['psi'], a['psi_hat'], b['psi'], b['gamma'],
                 b['pTp']] + a['p'] + a['grad_psi'] + b['p'] + b['grad_psi']
         if not LP.finite(*vals):
-            bump('descent_skipped_nonfinite')
+            cause = nonfinite_cause(op, a) if nonfinite_cause(op, a) != 'other' else nonfinite_cause(op, b)
+            bump('descent_skipped_' + cause)
+            if cause == 'other':
+                return f'callbacks {k}, {k+1}: non-finite φ / ψ at moderate iterates without NaN injection'
             continue
         if not qub_holds(a, P['qubtol'])[0]:
             bump('descent_excluded_qub_not_met_at_Lmax')
             continue
         if not acc:
-            m = fb_step_descent(a, b, P, 'forward-backward step (candidate rejected / none)')
+            noise = Fr(LM.REL) * LM.ExactQ(op).at(a['xhat'])[3]
+            m = fb_step_descent(a, b, P, 'forward-backward step (candidate rejected / none)', psi_noise=noise)
             if m:
                 return m
             bump('descent_fb_step')
@@ -516,14 +587,14 @@ def monitor_pantr(op_line, out_line, st):
         bump('descent_tr_step')
         if same_gamma:
             bump('descent_tr_step_same_stepsize')
-    return None
+    return nanf
 
 
 # ------------------------------------------------------------------ check
 
 def nontrivial(op_line, out_line):
     # ≥ 2 callbacks in any of the formats
-    return hash(op_line) if out_line.count(' ; CB ') >= 2 else None
+    return zlib.crc32(op_line.encode()) if out_line.count(' ; CB ') >= 2 else None
 
 
 def adapters():
@@ -541,6 +612,8 @@ def adapters():
 
             def gen(a, rng, n, exe, nsweep, g=g):
                 corpus = list(a.mod.corpus_ops()) if hasattr(a.mod, 'corpus_ops') else []
+                if a.name == 'zerofpr':
+                    corpus = ZEROFPR_CORPUS + corpus
                 return corpus + [g(rng, a.mod).line() for _ in range(n)]
             # the monitors cope with diverging (tiny L_max) runs themselves: non-finite data is skipped
             out.append(LM.Adapter(s, gen, skip_monitor=lambda op: False))
@@ -550,9 +623,9 @@ def adapters():
 def solver_monitor(solver, o, h, st):
     if h.startswith('S exception'):
         return None
-    if solver.name == 'pantr':
-        return monitor_pantr(o, h, st)
-    return monitor(o, h, st, flavor=solver.name)
+    m = monitor_pantr(o, h, st) if solver.name == 'pantr' else monitor(o, h, st, flavor=solver.name)
+    # φγ, ψ, ∇ψ, p, x̂, γ of every reported iterate are what they claim to be (exact, from the problem data)
+    return m or LM.iterate_consistency(solver.name, o, h, 'C05', bump)
 
 
 def main(argv):
